@@ -16,4 +16,5 @@ let find (id : string) : sx -> sx =
   | "C10" -> model_C10
   | "C18" -> model_C18
   | "C20" -> model_C20
+  | "C19" -> model_C19
   | _ -> failwith ("no extracted model for " ^ id)
